@@ -1,0 +1,20 @@
+//go:build verif
+
+// Contracts for property C13 (data codecs round-trip), package syntax: //bits. Comments only.
+// Vocabulary: bit/tz and the assumed facts about `v & (v-1)` are in /verif/specs/80_codec.smt2.
+package syntax
+
+//@ func set(ctx, arg)
+//@   tags C13, C10
+//@   assigns fresh-only
+//@   modifies added
+//@   returns (r, err)
+//@   ensures[C13] notnum: !(arg is rel.Number) ==> err != nil
+//@   loop 0 invariant nonneg: v >= 0
+//@   loop 0 decreases v
+
+//@ func mask(ctx, arg)
+//@   tags C13, C10
+//@   assigns fresh-only
+//@   returns (r, err)
+//@   ensures[C13] notset: !(arg is rel.Set) ==> err != nil
